@@ -408,8 +408,124 @@ pub fn malformed_frames() -> Vec<(&'static str, Vec<u8>)> {
     ]
 }
 
+
+/// Commands that arrive behind a blocking pop: the client is blocked, so nothing behind the BLPOP may be executed or
+/// answered until it is served or timed out; afterwards every reply arrives, in request order.
+/// Complete product: 3 blocking forms x 8 tails x {one write, tail in a second write while blocked}.
+fn blocked_pipeline_cases(h: &mut Harness, res: &mut Vec<Value>) -> Result<(), String> {
+    #[derive(Clone)]
+    enum Want {
+        Is(R),
+        Err,
+        Nil,
+    }
+    let ok = || Want::Is(R::Simple(b"OK".to_vec()));
+    let blocks: Vec<(&str, Vec<&str>, bool)> = vec![
+        ("BLPOP k 0 served by a push", vec!["BLPOP", "k", "0"], true),
+        ("BLPOP k 1 timing out", vec!["BLPOP", "k", "1"], false),
+        ("BRPOP nokey k 0 served by a push", vec!["BRPOP", "nokey", "k", "0"], true),
+    ];
+    let tails: Vec<(&str, Vec<u8>, Vec<Want>, bool)> = vec![
+        ("ECHO t", resp::cmd(&["ECHO", "t"]), vec![Want::Is(R::Bulk(b"t".to_vec()))], false),
+        ("SET s 1", resp::cmd(&["SET", "s", "1"]), vec![ok()], false),
+        ("RPUSH k self", resp::cmd(&["RPUSH", "k", "self"]), vec![Want::Is(R::Int(1))], false),
+        ("GET without arguments", resp::cmd(&["GET"]), vec![Want::Err], false),
+        ("MULTI SET s 1 EXEC", { let mut b = resp::cmd(&["MULTI"]); b.extend(resp::cmd(&["SET", "s", "1"])); b.extend(resp::cmd(&["EXEC"])); b },
+            vec![ok(), Want::Is(R::Simple(b"QUEUED".to_vec())), Want::Is(R::Arr(vec![R::Simple(b"OK".to_vec())]))], false),
+        ("BLPOP k2 1, ECHO t2", { let mut b = resp::cmd(&["BLPOP", "k2", "1"]); b.extend(resp::cmd(&["ECHO", "t2"])); b }, vec![Want::Nil, Want::Is(R::Bulk(b"t2".to_vec()))], false),
+        ("malformed frame, ECHO never", { let mut b = b"*x\r\n".to_vec(); b.extend(resp::cmd(&["ECHO", "never"])); b }, vec![Want::Err], true),
+        ("SET s 1, GET s, DEL s", { let mut b = resp::cmd(&["SET", "s", "1"]); b.extend(resp::cmd(&["GET", "s"])); b.extend(resp::cmd(&["DEL", "s"])); b }, vec![ok(), Want::Is(R::Bulk(b"1".to_vec())), Want::Is(R::Int(1))], false),
+    ];
+    for (bname, bcmd, by_push) in blocks.iter() {
+        for (tname, tbytes, twant, closes) in tails.iter() {
+            for two_writes in [false, true] {
+                let name = format!("blocked pipeline: ECHO m1, {}, {}{}", bname, tname, if two_writes { " (tail in a second write)" } else { "" });
+                h.ensure()?;
+                h.aux_call(&["FLUSHALL"])?;
+                let mut cli = h.srv.as_ref().unwrap().connect().map_err(|e| format!("connect: {:?}", e))?;
+                let mut first = resp::cmd(&["ECHO", "m1"]);
+                first.extend(resp::cmd(bcmd));
+                if !two_writes {
+                    first.extend_from_slice(tbytes);
+                }
+                cli.send(&first);
+                let total = 2 + twant.len();
+                let (mut got, mut err) = h.collect(&mut cli, total, 4);
+                if two_writes && err.is_none() {
+                    cli.send(tbytes);
+                    let (more, e2) = h.collect(&mut cli, total - got.len().min(total), 4);
+                    got.extend(more);
+                    err = e2;
+                }
+                let mut problem: Option<String> = None;
+                if err.is_some() {
+                    problem = Some(format!("error while blocked: {}", err.clone().unwrap()));
+                } else if got != vec![R::Bulk(b"m1".to_vec())] {
+                    problem = Some("answered-behind-a-blocked-command".into());
+                }
+                // nothing behind the blocking command may have been executed yet
+                if problem.is_none() {
+                    let s_now = h.aux_call(&["EXISTS", "s"])?;
+                    let k_now = h.aux_call(&["LLEN", "k"])?;
+                    if s_now != R::Int(0) || k_now != R::Int(0) {
+                        problem = Some("executed-behind-a-blocked-command".into());
+                    }
+                }
+                let first_reply = if *by_push {
+                    h.aux_call(&["RPUSH", "k", "v"])?;
+                    Want::Is(R::Arr(vec![R::Bulk(b"k".to_vec()), R::Bulk(b"v".to_vec())]))
+                } else {
+                    vtime::tick(2_000_000_000).map_err(|_| "settle timeout".to_string())?;
+                    Want::Nil
+                };
+                if problem.is_none() {
+                    let (more, e2) = h.collect(&mut cli, total - got.len(), 4);
+                    got.extend(more);
+                    err = e2;
+                    if got.len() < total && err.is_none() {
+                        // a second blocking command in the tail: let its timeout pass
+                        vtime::tick(2_000_000_000).map_err(|_| "settle timeout".to_string())?;
+                        let (more, e2) = h.collect(&mut cli, total - got.len(), 4);
+                        got.extend(more);
+                        err = e2;
+                    }
+                    let mut want: Vec<Want> = vec![Want::Is(R::Bulk(b"m1".to_vec())), first_reply];
+                    want.extend(twant.iter().cloned());
+                    let matches = got.len() == want.len() && got.iter().zip(want.iter()).all(|(g, w)| match w {
+                        Want::Is(r) => crate::model::same(r, g),
+                        Want::Err => g.is_err(),
+                        Want::Nil => matches!(g, R::Nil | R::NilArr),
+                    });
+                    let err_fine = err.is_none() || (*closes && err.as_deref() == Some("connection-closed"));
+                    if !matches {
+                        problem = Some(if got.len() < want.len() { "missing-reply".into() } else if got.len() > want.len() { "extra-reply".into() } else { "wrong-or-out-of-order".into() });
+                    } else if !err_fine {
+                        problem = Some(format!("error: {}", err.clone().unwrap()));
+                    }
+                }
+                if problem.is_none() && !*closes {
+                    let usable = cli.is_open() && h.srv.as_ref().unwrap().call(&mut cli, &["PING"]).map(|r| r == R::Simple(b"PONG".to_vec())).unwrap_or(false);
+                    if !usable {
+                        problem = Some("connection-unusable-afterwards".into());
+                    }
+                }
+                let shown: Vec<String> = got.iter().map(resp::show).collect();
+                cli.discard();
+                if let Some(s) = h.srv.as_ref() {
+                    if !s.is_dead() {
+                        let _ = s.steps(2);
+                    }
+                }
+                res.push(json!({"name": name, "outcome": problem.unwrap_or_else(|| "in-order".into()), "replies": shown, "error": err}));
+            }
+        }
+    }
+    Ok(())
+}
+
 fn violation_task(h: &mut Harness) -> Result<Value, String> {
     let mut res = Vec::new();
+    blocked_pipeline_cases(h, &mut res)?;
     for (name, frame) in malformed_frames() {
         h.ensure()?;
         let mut cli = h.srv.as_ref().unwrap().connect().map_err(|e| format!("connect: {:?}", e))?;
